@@ -217,7 +217,7 @@ def build_driver(timeout=1200):
         return False, out
     sh("cp %s/ocaml/*.ml ." % ROOT, cwd=d)
     order = "model.mli model.ml conv.ml " + " ".join(
-        f for f in ["pure_more.ml", "trace.ml", "driver.ml"] if os.path.exists(os.path.join(d, f))
+        f for f in ["trace.ml", "pure_more.ml", "driver.ml"] if os.path.exists(os.path.join(d, f))
     )
     rc, out2 = sh("ocamlfind ocamlopt -O3 -w -a -o driver " + order, cwd=d, timeout=timeout)
     return rc == 0, out + out2
